@@ -95,6 +95,8 @@ type Recorder struct {
 	startY     float32
 	// NoLattice skips sampling At on gradient paints.
 	NoLattice bool
+	// Points, when set, replaces LatticePoints for the At samples.
+	Points []image.Point
 	// Limit > 0 stops recording (but keeps counting) after Limit calls.
 	Limit int
 	Count int
@@ -140,11 +142,16 @@ func (r *Recorder) ClosePath() {
 	r.penX, r.penY = r.startX, r.startY
 }
 func (r *Recorder) Draw(rect image.Rectangle, src image.Image, sp image.Point) {
-	r.add(Call{K: Draw, R: rect, SP: sp, P: Snapshot(src, !r.NoLattice)})
+	r.add(Call{K: Draw, R: rect, SP: sp, P: snapshot(src, !r.NoLattice, r.Points)})
 }
 
 // Snapshot copies what matters of a paint.
-func Snapshot(src image.Image, lattice bool) *Paint {
+func Snapshot(src image.Image, lattice bool) *Paint { return snapshot(src, lattice, nil) }
+
+func snapshot(src image.Image, lattice bool, points []image.Point) *Paint {
+	if points == nil {
+		points = LatticePoints
+	}
 	switch s := src.(type) {
 	case *image.Uniform:
 		c, ok := s.C.(*color.RGBA)
@@ -163,7 +170,7 @@ func Snapshot(src image.Image, lattice bool) *Paint {
 		a, b, c, d, e, f := s.Transform()
 		p.Transform = [6]float64{a, b, c, d, e, f}
 		if lattice {
-			for _, pt := range LatticePoints {
+			for _, pt := range points {
 				rr, gg, bb, aa := src.At(pt.X, pt.Y).RGBA()
 				p.Lattice = append(p.Lattice, color.RGBA64{uint16(rr), uint16(gg), uint16(bb), uint16(aa)})
 			}
